@@ -339,10 +339,192 @@ impl SubCheckT for WellFormed {
     }
 }
 
+// ---------------------------------------------------------------------------
+// canonicity on SDDs with many essential variables, by identities that need no truth table
+// ---------------------------------------------------------------------------
+
+#[derive(Clone, Debug, serde::Serialize, serde::Deserialize)]
+pub struct IdentCase {
+    pub nv: u8,
+    pub seed: u64,
+    /// 0 random splits, 1 balanced, 2 right-linear, 3 deep left: the root's left child is a right-linear chain over
+    /// all but three variables (primes nest as deep as that chain), its right child holds the last three
+    pub vt_kind: u8,
+    pub table_cap: Option<u16>,
+    pub steps: Vec<(u8, u16, u16, u16)>,
+    pub idents: Vec<(u8, u16, u16, u16, u8, bool)>,
+}
+
+pub struct Identities;
+
+pub fn run_ident(case: &IdentCase, st: &mut Stats) -> CaseResult {
+    let deep = case.vt_kind % 4 == 3;
+    let n = if deep { (case.nv as usize).clamp(12, 26) } else { (case.nv as usize).clamp(9, 16) };
+    let shape: Shape = if deep {
+        fn chain(labels: &[usize]) -> Shape {
+            if labels.len() == 1 {
+                Shape::Leaf(labels[0])
+            } else {
+                Shape::Node(Box::new(Shape::Leaf(labels[0])), Box::new(chain(&labels[1..])))
+            }
+        }
+        let all: Vec<usize> = (0..n).collect();
+        Shape::Node(Box::new(chain(&all[..n - 3])), Box::new(chain(&all[n - 3..])))
+    } else {
+        VtreeCase {
+            k: n as u8,
+            keys: (0..n as u64).map(|i| (splitmix(case.seed ^ (i + 1)) >> 48) as u16).collect(),
+            kind: [3u8, 2, 0][(case.vt_kind % 4) as usize],
+            splits: (0..n as u64).map(|i| (splitmix(case.seed ^ (i + 77)) >> 48) as u16).collect(),
+            stride: 1,
+            offset: 0,
+        }
+        .shape()
+    };
+    rsdd::verif_hooks::set_unique_table_capacity(case.table_cap.map(|c| c as usize));
+    let b = rsdd::builder::sdd::CompressionSddBuilder::new(shape.to_vtree());
+    rsdd::verif_hooks::set_unique_table_capacity(None);
+    let lit = |v: usize, p: bool| b.var(rsdd::repr::VarLabel::new_usize(v), p);
+    let mut pool: Vec<SddPtr> = (0..n).map(|v| lit(v, splitmix(case.seed ^ v as u64) & 1 == 1)).collect();
+    let mut must_commute: Vec<(SddPtr, SddPtr)> = Vec::new();
+    if deep {
+        // terms that share a cube over most of the chain and differ only in its last two variables and on the
+        // right of the root: their primes agree on a long prefix
+        let m = n - 3;
+        let mut cube = b.true_ptr();
+        for v in (0..m - 2).rev() {
+            cube = b.and(lit(v, splitmix(case.seed ^ 0xC0 ^ v as u64) % 4 != 0), cube);
+        }
+        for k in 0..3u64 {
+            let x = splitmix(case.seed ^ 0x7E4 ^ k);
+            let tail = b.and(lit(m - 2, x & 1 == 1), lit(m - 1, x & 2 == 2));
+            let right = b.and(lit(m + (k as usize % 3), x & 4 == 4), lit(m + ((k as usize + 1) % 3), x & 8 == 8));
+            let left = b.and(cube, tail);
+            pool.push(b.and(left, right));
+        }
+        let l = pool.len();
+        must_commute.push((pool[l - 1], pool[l - 2]));
+        must_commute.push((pool[l - 2], pool[l - 3]));
+        must_commute.push((pool[l - 1], pool[l - 3]));
+    }
+    fn at<'x>(pool: &[SddPtr<'x>], i: u16) -> SddPtr<'x> {
+        pool[pick(i, pool.len())]
+    }
+    let max_steps = if deep { 6 } else { case.steps.len() };
+    for (op, a, bb, c) in case.steps.iter().take(max_steps) {
+        let (p, q, r) = (at(&pool, *a), at(&pool, *bb), at(&pool, *c));
+        let res = match op % 5 {
+            0 => b.and(p, q),
+            1 => b.or(p, q.neg()),
+            2 => b.ite(p, q, r),
+            3 => b.or(b.and(p, q), r),
+            _ => b.xor(p, q),
+        };
+        if !res.is_const() {
+            pool.push(res);
+        }
+    }
+    let sized = |p: SddPtr| sdd_nodes(p).len();
+    let mut largest = 0usize;
+    let mut deepest = 0usize;
+    let same_on_samples = |p: SddPtr, q: SddPtr, salt: u64| -> bool {
+        (0..192u64).all(|k| {
+            let a = crate::big::assignment(case.seed ^ salt, k, n);
+            crate::big::sdd_eval(p, &a) == crate::big::sdd_eval(q, &a)
+        })
+    };
+    let mut tests: Vec<(String, SddPtr, SddPtr, usize)> = Vec::new();
+    for (x, y) in must_commute.iter() {
+        tests.push(("or(a,b) = or(b,a) on terms sharing a long cube".into(), b.or(*x, *y), b.or(*y, *x), sized(*x)));
+        tests.push(("and(!a,!b) = and(!b,!a) on terms sharing a long cube".into(), b.and(x.neg(), y.neg()), b.and(y.neg(), x.neg()), sized(*x)));
+    }
+    for (kind, a, bb, c, vb, val) in case.idents.iter() {
+        let (p, q, r) = (at(&pool, *a), at(&pool, *bb), at(&pool, *c));
+        let v = rsdd::repr::VarLabel::new_usize(((*vb as usize) * n) >> 8);
+        let (name, lhs, rhs): (&str, SddPtr, SddPtr) = match kind % 9 {
+            0 => ("and(a,b) = and(b,a)", b.and(p, q), b.and(q, p)),
+            1 => ("or(a,b) = or(b,a)", b.or(p, q), b.or(q, p)),
+            2 => ("or(a,b) = not and(not a, not b)", b.or(p, q), b.and(p.neg(), q.neg()).neg()),
+            3 => ("ite(a,b,c) = or(and(a,b), and(!a,c))", b.ite(p, q, r), b.or(b.and(p, q), b.and(p.neg(), r))),
+            4 => ("exists(a,v) = or(a|v, a|!v)", b.exists(p, v), b.or(b.condition(p, v, true), b.condition(p, v, false))),
+            5 => ("and(a,b)|v = and(a|v, b|v)", b.condition(b.and(p, q), v, *val), b.and(b.condition(p, v, *val), b.condition(q, v, *val))),
+            6 => ("or(and(v, a|v), and(!v, a|!v)) = a", b.or(b.and(b.var(v, true), b.condition(p, v, true)), b.and(b.var(v, false), b.condition(p, v, false))), p),
+            7 => ("and(and(a,b),c) = and(a,and(b,c))", b.and(b.and(p, q), r), b.and(p, b.and(q, r))),
+            _ => ("xor(a,b) = or(and(a,!b), and(!a,b))", b.xor(p, q), b.or(b.and(p, q.neg()), b.and(p.neg(), q))),
+        };
+        tests.push((name.into(), lhs, rhs, sized(p).max(sized(q))));
+    }
+    for (k, (name, lhs, rhs, opsize)) in tests.iter().enumerate() {
+        largest = largest.max(sized(*lhs)).max(*opsize);
+        deepest = deepest.max(crate::big::sdd_depth(*lhs));
+        if *lhs != *rhs || !b.eq(*lhs, *rhs) {
+            if same_on_samples(*lhs, *rhs, k as u64) {
+                return fail(
+                    "C04/equal-functions-different-pointers",
+                    format!(
+                        "identity #{} {} over {} variables (vtree family {}, operands of up to {} nodes): the two sides agree on 192 sampled assignments but are different pointers ({} and {} nodes)",
+                        k,
+                        name,
+                        n,
+                        case.vt_kind % 4,
+                        opsize,
+                        sized(*lhs),
+                        sized(*rhs)
+                    ),
+                );
+            }
+            st.bump("identity_sides_denote_different_functions(C03's concern)");
+        }
+        st.bump("identities_checked");
+    }
+    st.bump(&format!("ident.vtree_family.{}", case.vt_kind % 4));
+    st.bump(match largest {
+        0..=16 => "ident.largest_diagram.upto_16",
+        17..=64 => "ident.largest_diagram.17_64",
+        _ => "ident.largest_diagram.above_64",
+    });
+    st.bump(match deepest {
+        0..=8 => "ident.deepest_nesting.upto_8",
+        9..=16 => "ident.deepest_nesting.9_16",
+        _ => "ident.deepest_nesting.above_16",
+    });
+    if largest > 16 || deepest > 8 {
+        st.mark_nontrivial();
+    }
+    Ok(())
+}
+
+impl SubCheckT for Identities {
+    type Case = IdentCase;
+    const NAME: &'static str = "identities_on_large_sdds";
+    const RULE: &'static str = "compressing builder over 9..16 variables (random / balanced / right-linear vtree) with a pool grown by up to 14 and / or / ite / xor steps, or over 12..26 variables on a vtree whose root has a right-linear chain of all but three variables on its left, with terms that share a cube over most of that chain (the root's primes are nested as deep as the chain and agree on a long prefix); then identities whose two sides are built by different routes and must be the same pointer: commutativity of and / or (always on the cube-sharing terms), De Morgan, ite and xor by and/or, exists = or of the cofactors, conditioning distributes over and, Shannon re-assembly, associativity; sides that differ as pointers are evaluated on 192 sampled assignments: agreeing there they are two pointers for one function (reported here), else recorded as C03's concern. Non-trivial: a diagram of more than 16 nodes or nodes nested deeper than 8";
+    fn cases(tier: Tier) -> u32 {
+        tier.pick(600, 12_000)
+    }
+    fn strategy(_tier: Tier) -> BoxedStrategy<IdentCase> {
+        (
+            9u8..=26,
+            any::<u64>(),
+            prop_oneof![2 => Just(0u8), 1 => Just(1u8), 1 => Just(2u8), 3 => Just(3u8)],
+            prop_oneof![2 => Just(None), 3 => (1u16..=32).prop_map(Some)],
+            proptest::collection::vec((any::<u8>(), crate::bddi::idx_strategy(), crate::bddi::idx_strategy(), crate::bddi::idx_strategy()), 4..=14),
+            proptest::collection::vec(
+                (any::<u8>(), crate::bddi::idx_strategy(), crate::bddi::idx_strategy(), crate::bddi::idx_strategy(), any::<u8>(), any::<bool>()),
+                2..=10,
+            ),
+        )
+            .prop_map(|(nv, seed, vt_kind, table_cap, steps, idents)| IdentCase { nv, seed, vt_kind, table_cap, steps, idents })
+            .boxed()
+    }
+    fn run(case: &IdentCase, st: &mut Stats) -> CaseResult {
+        run_ident(case, st)
+    }
+}
+
 pub fn property() -> Property {
     Property {
         id: "C04",
-        subs: vec![sub::<WellFormed>()],
+        subs: vec![sub::<WellFormed>(), sub::<Identities>()],
         fuzz: vec![FuzzSpec { target: "sdd_ops", runs: 6000, max_len: 300 }],
         assumptions: vec![
             "compressing builder only (compression switched on); functions of <= 8 variables (vtrees of up to 120 leaves)",
